@@ -149,6 +149,15 @@ CLAIMED = {
         design_ref="DESIGN.md section 6 C16",
         note="Trusted: TLC; the harness snapshotter; ext4 as root; chroot of the same filesystem as jail; kernel symlink-following per syscall; bounded universes and seeded random trees. moby/patternmatcher is trusted for single-pattern verdicts.",
         technique="TLA+ reference filter (FilterRef) + TLC trace validation of real filtered copies against reference and filtered walk"),
+    "C18": dict(
+        text="FollowLinks runs (in a watchdogged child process) over materialised trees with symlinks (relative, absolute, '..' beyond the root, "
+             "chains, cycles, links in intermediate components, dangling) and request lists (literal, non-existent, wildcards), followed by a real "
+             "transfer with those follow-paths; TLC resolves every request chroot-style on the tree model (spec/Trees!ResolveFrom, FollowRef) and "
+             "checks termination, sortedness, that no element lies inside another, that every traversed symlink and every final location is "
+             "covered, emptiness when the root is reached, and that each request resolves to the same entry and bytes in the transferred copy.",
+        design_ref="DESIGN.md section 6 C18",
+        note="Trusted: TLC; the harness snapshotter; ext4 as root. Wildcard requests are judged structurally only.",
+        technique="TLA+ chroot-style resolver and coverage predicates (FollowRef) + TLC trace validation of real FollowLinks runs and follow-path transfers"),
     "C19": dict(
         text="Metadata-only transfers with the real Receive (real or synthetic sender) over trees with selectors none/all/files/directories/"
              "nested, sources containing an entry with the listing file's name (top level and nested), prior destinations holding a stale listing "
